@@ -33,7 +33,7 @@ def check(run, F, tier):
                        "ordering and accompaniment rules are evaluated on every word. Over-approximates paths, so a pass "
                        "covers every history (each returned list is produced by one call).")
     ms = conn.gc_methods(F)
-    r1 = run.rule("C19-R1", "no RequestClose before RequestSendPacket in any returned event list", floor=60)
+    r1 = run.rule("C19-R1", "no RequestClose before RequestSendPacket in any returned event list", floor=48)
     recvh = conn.handlers(F, "process_recv")
     sendh = conn.handlers(F, "process_send")
     # handler summaries
